@@ -572,3 +572,19 @@ fn socks_to_io_error(err: socks5_client::Error) -> io::Error {
         }
     }
 }
+
+/// Verification accessor (cfg(trusttunnel_verif) only): the private credential converters
+#[cfg(trusttunnel_verif)]
+pub(crate) fn verif_make_auth<'a>(
+    auth: authentication::Source<'a>,
+    extended: bool,
+    tls_domain: &'a str,
+    client_address: &IpAddr,
+    user_agent: Option<&'a str>,
+) -> Result<socks5_client::Authentication<'a>, String> {
+    if extended {
+        make_extended_auth(auth, tls_domain, client_address, user_agent)
+    } else {
+        make_auth(auth)
+    }
+}
